@@ -17,11 +17,13 @@ from . import _read
 from .C15 import validate
 
 LEVEL = "model_checking"
+WRONG = ["writestr", "writef", "write", "writeall", "setters"]       # write-side calls made on a read-mode object
 
 GEN = """SPECIFICATION GSpec
 CONSTANT Archives <- MCArchives
 CONSTANT MaxCalls = %d
 CONSTANT TestZipResets = TRUE
+CONSTANT WriteGuarded = TRUE
 CONSTRAINT Emit
 INVARIANT Repeatable
 CHECK_DEADLOCK FALSE
@@ -34,6 +36,10 @@ def run(tier, rep, ev):
     ev.add_tlc(r, "ReadSessionMC(calls<=3)")
     if not r.ok:
         rep.note_drift(f"I-level model violates {r.violated}")
+    ru = tlc.run("ReadSessionMC", "ReadSessionMC_unguarded.cfg", workers=4)
+    ev.cov["negative_control_wrongmode"] = {"cfg": "ReadSessionMC_unguarded.cfg", "violated": ru.violated or "NOTHING"}
+    if ru.ok:
+        raise MachineryError("negative control failed: write calls that reach the caller's stream satisfy Untouched")
     rn = tlc.run("ReadSessionMC", "ReadSessionMC_noreset.cfg", workers=4)
     ev.cov["negative_control"] = {"cfg": "ReadSessionMC_noreset.cfg", "violated": rn.violated or "NOTHING"}
     if rn.ok:
@@ -52,6 +58,7 @@ def run(tier, rep, ev):
         calls = []
         for j, c in enumerate(b["calls"]):
             calls.append({"name": c["name"], "T": list(c["T"]), "rec": c["rec"], "sink": "path" if (i + j) % 3 == 0 else "factory",
+                          "k": WRONG[(i // 4 + j) % len(WRONG)],
                           "asset": "set" if (i + j) % 2 else "list", "slash": ["none", "dirs", "all"][(i + j) % 3]})
         variants = [(i % 2 == 0, "path" if (i // 2) % 2 == 0 else "stream")] if tier == "quick" else [(e, t) for e in (False, True) for t in ("path", "stream")]
         for enc, tgt in variants:
@@ -60,7 +67,7 @@ def run(tier, rep, ev):
                           "packcrc": (i // 3) % 2 == 0,
                           "wd": os.path.join(base, f"s{len(cases)}")})
     # random longer sequences on random shapes
-    names = ["getnames", "list", "getinfo", "archiveinfo", "test", "testzip", "extractall", "extract", "reset", "needs_password"]
+    names = ["getnames", "list", "getinfo", "archiveinfo", "test", "testzip", "extractall", "extract", "reset", "needs_password", "wrongmode"]
     for i in range(150 if tier == "quick" else 3000):
         shape = _read.random_shape(R)
         n = len(shape["members"])
@@ -74,7 +81,7 @@ def run(tier, rep, ev):
                 dirty = True
             if nm == "reset":
                 dirty = False
-            calls.append({"name": nm, "T": [R.randrange(0, n + 1) for _ in range(R.randrange(0, 3))], "rec": R.random() < 0.5,
+            calls.append({"name": nm, "T": [R.randrange(0, n + 1) for _ in range(R.randrange(0, 3))], "rec": R.random() < 0.5, "k": R.choice(WRONG),
                           "sink": R.choice(["factory", "path"]), "asset": R.choice(["list", "set"]), "slash": R.choice(["none", "dirs", "all"])})
         calls = calls[:6]
         dmg = [R.randrange(1, shape["nfolders"] + 1)] if shape["nfolders"] and R.random() < 0.3 else []
